@@ -4,7 +4,6 @@ import importlib, json, os, sys
 sys.path.insert(0, os.path.dirname(os.path.abspath(__file__)))
 PROPS = [json.loads(l)["id"] for l in open("properties.jsonl")]
 NA = {
- "C16": "PRINT layout (zones at 14 columns, number rendering, PRINT USING field scanning) is value-level string/column arithmetic over a hidden counter; no clause is visible in the shape of the code except that the column counter is a field of the per-device printer, too weak to claim (DESIGN.md section 4, C16)",
  "C19": "agreement of hand-written bit-vector arithmetic with two's complement / IEEE-754 quantifies over every bit pattern; no structural necessary condition in reach of dataflow or type-level analysis, and bit-vector reasoning is solver territory, a different family (DESIGN.md section 4, C19)",
 }
 TECH = {
@@ -23,6 +22,7 @@ TECH = {
  "C13": "must-pass-through (SHARED gate), table-writer ownership, dominance of insert by clash check over MIR",
  "C14": "cross-table agreement by abstract interpretation of the constant folder vs the VM handlers over enum tags",
  "C15": "counter dataflow over emitted templates with VM stack effects derived from MIR; clone/emit provenance; arm tables",
+ "C16": "arm-table identity of the device / item dispatch over MIR; constant propagation over every path of the PRINT state machine; field ownership and must-pass-through of the per-device column counter; truth table over ASCII of the line-end predicate; format-template decoding of the number frame",
  "C17": "accessor provenance of count/position arguments over MIR",
  "C18": "dominance of insert by contains_key guard; Result-must-propagate; sibling agreement of console/file branches",
  "C20": "typestate walk of every Parser::parse body (position/softness contract), inductive over parser construction",
